@@ -38,8 +38,8 @@ SEED = bytes(range(1, 65))
 ENTRIES = {}     # name -> dict(kind, call, seeds, slow)
 
 
-def E(name, kind, call, seeds=(), slow=False):
-    ENTRIES[name] = {"kind": kind, "call": call, "seeds": list(seeds), "slow": slow}
+def E(name, kind, call, seeds=(), slow=False, meta=None):
+    ENTRIES[name] = {"kind": kind, "call": call, "seeds": list(seeds), "slow": slow, "meta": meta}
 
 
 # --------------------------------------------------------------------------- census
@@ -86,7 +86,7 @@ def build():
         if n_by[dname] > 3:
             continue
         E("%s.DecodeAddr[%s]" % (dname, cname), "str",
-          (lambda d, p: lambda s: d.DecodeAddr(s, **p))(dec, params), seeds)
+          (lambda d, p: lambda s: d.DecodeAddr(s, **p))(dec, params), seeds, meta=(dname, params))
     # special address families
     sh = CardanoShelley.FromCip1852Object(Cip1852.FromSeed(SEED, Cip1852Coins.CARDANO_ICARUS).Purpose().Coin().Account(0))
     for nm, obj in (("AdaShelleyStakingAddrDecoder", sh.StakingObject()), ("AdaShelleyRewardAddrDecoder", sh.RewardObject())):
@@ -485,18 +485,221 @@ def _direct(name):
     return chk
 
 
-MODEL_MAP = {
-    "Base58Decoder.Decode[btc]": lambda m, a: m.call("b58_decode", 0, a[0]),
-    "Base58Decoder.Decode[xrp]": lambda m, a: m.call("b58_decode", 1, a[0]),
-    "Base58Decoder.CheckDecode[btc]": lambda m, a: m.call("b58_check_decode", 0, a[0]),
-    "Base58Decoder.CheckDecode[xrp]": lambda m, a: m.call("b58_check_decode", 1, a[0]),
-}
+# --------------------------------------------------------------------------- model map
+#
+# Every census entry whose exception-faithful model is merged is ALSO compared with that model, on the same
+# inputs as the fuzz run.  MODEL_MAP[name] = M(model, impl=None, shape=None):
+#   model(m, x) -> ('ok', v) | ('err', class)   -- the call the model's own property module makes (FUNCS of
+#                                                   harness/props/Cxx.py), through Q(m, "<group>") which
+#                                                   qualifies the API name with its group;
+#   impl(x)     -> comparable value of the SAME public entry point (default: the census call);
+#   shape       -> None: values are compared; "class": only the outcome class (ok / exception class) is compared,
+#                  because the entry point returns an object (or draws randomness) the model does not rebuild.
+# PATTERN for a new model: add its line here; nothing else in this file changes.
 
+class Q:
+    """ModelDriver proxy that qualifies unqualified API names with one group (names clash across groups)."""
+    def __init__(self, m, group):
+        self.m, self.group = m, group
+
+    def call(self, name, *args):
+        return self.m.call(name if "." in name else self.group + "." + name, *args)
+
+
+class M:
+    def __init__(self, model, impl=None, shape=None):
+        self.model, self.impl, self.shape = model, impl, shape
+
+
+def _props(mod):
+    import importlib
+    return importlib.import_module("props." + mod)
+
+
+def via(mod, fn, group, args=lambda x: [x], shape=None, census_impl=False):
+    """Reuse FUNCS[fn] of props/<mod>.py (its model call and its normalising impl) on arguments built from x."""
+    f = _props(mod).FUNCS[fn]
+    return M(lambda m, x: f.model(Q(m, group), args(x)),
+             None if (census_impl or shape == "class") else (lambda x: f.impl(args(x))), shape)
+
+
+def words(x):
+    return x.split()
+
+
+MODEL_MAP = {}
+
+
+def build_model_map():
+    MM = MODEL_MAP
+    # ---- text / wire codecs (C11: groups base58, codecs)
+    MM["Base58Decoder.Decode[btc]"] = M(lambda m, x: m.call("base58.b58_decode", 0, x))
+    MM["Base58Decoder.Decode[xrp]"] = M(lambda m, x: m.call("base58.b58_decode", 1, x))
+    MM["Base58Decoder.CheckDecode[btc]"] = M(lambda m, x: m.call("base58.b58_check_decode", 0, x))
+    MM["Base58Decoder.CheckDecode[xrp]"] = M(lambda m, x: m.call("base58.b58_check_decode", 1, x))
+    MM["Base58XmrDecoder.Decode"] = M(lambda m, x: m.call("codecs.xmr_decode", x))
+    MM["Base32Decoder.Decode"] = M(lambda m, x: m.call("codecs.b32_decode", x, []))
+    MM["Base32Decoder.Decode[custom]"] = M(lambda m, x: m.call("codecs.b32_decode", x, ["13456789abcdefghijkmnopqrstuwxyz"]))
+    MM["SS58Decoder.Decode"] = via("C11", "ss58_decode", "codecs")
+    MM["BytesUtils.FromHexString"] = M(lambda m, x: m.call("codecs.hex_decode", x))
+    MM["BytesUtils.FromBinaryStr"] = M(lambda m, x: m.call("codecs.bytes_from_binstr", x, 0))
+    MM["IntegerUtils.FromBinaryStr"] = M(lambda m, x: m.call("codecs.int_from_binstr", x))
+    MM["CborIndefiniteLenArrayDecoder.Decode"] = via("C11", "cbor_decode", "codecs")
+    # ---- paths (C06, C19: group paths)
+    MM["Bip32PathParser.Parse"] = via("C06", "bip32_parse", "paths")
+    MM["Bip32KeyIndex.FromBytes"] = M(lambda m, x: m.call("paths.bip32_index_from_bytes", x), impl=lambda x: int(Bip32KeyIndex.FromBytes(x)))
+    MM["SubstratePathParser.Parse"] = via("C19", "sub_parse", "paths")
+
+    def chain_code_model(m, x):
+        r = m.call("paths.sub_make_elem", x)           # SubstratePathElem(x) ...
+        if r[0] == "err":
+            return r
+        return m.call("paths.sub_chain_code", r[1][0])   # ... .ChainCode() of its body
+    MM["SubstratePathElem.ChainCode"] = M(chain_code_model)
+    # ---- BIP-39 and seed generators (C01, C02: group bip39); language None = automatic detection
+    MM["Bip39MnemonicDecoder.Decode"] = via("C01", "bip39_decode_str", "bip39", lambda x: [None, x])
+    MM["Bip39MnemonicValidator.Validate"] = via("C01", "bip39_decode_str", "bip39", lambda x: [None, x], shape="class")
+    MM["Bip39MnemonicDecoder.DecodeWithChecksum"] = via("C01", "bip39_decode_ck_str", "bip39", lambda x: [None, x])
+    MM["Bip39MnemonicValidator.IsValid"] = via("C01", "bip39_is_valid_str", "bip39", lambda x: [None, x])
+    MM["Bip39Mnemonic.FromString"] = M(lambda m, x: Q(m, "bip39").call("bip39_normalize", x), impl=lambda x: Bip39Mnemonic.FromString(x).ToList())
+    MM["Bip39SeedGenerator"] = via("C02", "bip39_seed_str", "bip39", lambda x: [None, x, ""])
+    MM["SubstrateBip39SeedGenerator"] = via("C02", "substrate_seed_str", "bip39", lambda x: [None, x, ""])
+    MM["ElectrumV2SeedGenerator"] = via("C02", "electrum_v2_seed_str", "bip39", lambda x: [x, ""])
+    # ---- Monero / Algorand / Electrum mnemonics (C17: group mnem); the model takes the word list of the Mnemonic
+    #      object (Mnemonic.FromString = str.split()); NOLANG = automatic language / all types
+    c17 = _props("C17")
+    NOLANG = c17.NOLANG
+    for k in ("Monero", "MoneroNoChk"):
+        MM[k + "MnemonicDecoder.Decode"] = M(lambda m, x: m.call("mnem.xmr_decode", NOLANG, words(x)))
+        MM[k + "MnemonicValidator.Validate"] = M(lambda m, x: m.call("mnem.xmr_decode", NOLANG, words(x)), shape="class")
+        MM[k + "MnemonicValidator.IsValid"] = M(lambda m, x: m.call("mnem.xmr_is_valid", NOLANG, words(x)))
+    MM["MoneroSeedGenerator"] = M(lambda m, x: m.call("mnem.xmr_decode", NOLANG, words(x)))
+    # Bip39Mnemonic-derived classes normalise each word (lower + NFKD) twice on the str path: k = 2
+    MM["AlgorandMnemonicDecoder.Decode"] = M(lambda m, x: m.call("mnem.algo_decode", 1, 2, words(x)))
+    MM["AlgorandMnemonicValidator.Validate"] = M(lambda m, x: m.call("mnem.algo_decode", 1, 2, words(x)), shape="class")
+    MM["AlgorandMnemonicValidator.IsValid"] = M(lambda m, x: m.call("mnem.algo_is_valid", 1, 2, words(x)))
+    MM["AlgorandSeedGenerator"] = M(lambda m, x: m.call("mnem.algo_decode", 1, 2, words(x)))
+    MM["ElectrumV1MnemonicDecoder.Decode"] = M(lambda m, x: m.call("mnem.ev1_decode", 1, 2, words(x)))
+    MM["ElectrumV1MnemonicValidator.Validate"] = M(lambda m, x: m.call("mnem.ev1_decode", 1, 2, words(x)), shape="class")
+    MM["ElectrumV1MnemonicValidator.IsValid"] = M(lambda m, x: m.call("mnem.ev1_is_valid", 1, 2, words(x)))
+    MM["ElectrumV2MnemonicDecoder.Decode"] = M(lambda m, x: m.call("mnem.ev2_decode", 1, NOLANG, NOLANG, 2, words(x)))
+    MM["ElectrumV2MnemonicValidator.Validate"] = M(lambda m, x: m.call("mnem.ev2_decode", 1, NOLANG, NOLANG, 2, words(x)), shape="class")
+    MM["ElectrumV2MnemonicValidator.IsValid"] = M(lambda m, x: m.call("mnem.ev2_is_valid", 1, NOLANG, NOLANG, 2, words(x)))
+    # ---- extended keys, SLIP-32, WIF, BIP-38 (C05, C13: group serbip)
+    c05 = _props("C05")
+    MM["Bip32KeyDeserializer.DeserializeKey"] = via("C05", "c05_deserialize", "serbip", lambda x: [c05.MAIN[0], c05.MAIN[1], x])
+    for cname, cid, ver in (("Bip32Slip10Secp256k1", 0, c05.MAIN), ("Bip32KholawEd25519", 1, c05.KHOLAW),
+                            ("Bip32Slip10Ed25519", 2, c05.MAIN)):
+        assert c05.CLS[cid].__name__ == cname
+        MM[cname + ".FromExtendedKey"] = via("C05", "c05_from_extended", "serbip",
+                                             (lambda cid_, ver_: lambda x: [cid_, ver_[0], ver_[1], x])(cid, ver))
+    from bip_utils.slip.slip32 import Slip32KeyNetVersions  # noqa
+    MM["Slip32KeyDeserializer.DeserializeKey"] = via("C05", "slip32_deserialize", "serbip", lambda x: ["xpub", "xprv", x])
+    MM["Bip32ChainCode"] = M(lambda m, x: m.call("serbip.c05_mk_key_data", Z(0), Z(0), x, bytes(4)), shape="class")
+    MM["Bip32FingerPrint"] = M(lambda m, x: m.call("serbip.c05_mk_key_data", Z(0), Z(0), bytes(32), x), shape="class")
+    MM["Bip32KeyNetVersions"] = M(lambda m, x: m.call("serbip.c05_mk_key_net_ver", x, x), shape="class")
+    MM["WifDecoder.Decode"] = via("C13", "wif_decode", "serbip", lambda x: [x, b"\x80"])
+    MM["Bip38Decrypter.DecryptNoEc"] = via("C13", "bip38_noec_decrypt", "serbip", lambda x: [x, "TestingOneTwoThree"])
+    MM["Bip38Decrypter.DecryptEc"] = via("C13", "bip38_ec_decrypt", "serbip", lambda x: [x, "TestingOneTwoThree"])
+    # the library draws seedb at random: only the outcome class is comparable
+    MM["Bip38EcKeysGenerator.GeneratePrivateKey"] = via("C13", "bip38_ec_gen_private_key", "serbip",
+                                                        lambda x: [x, 1, bytes(range(24))], shape="class")
+    # ---- EC key layer (C12: group ecc).  The constructors return objects: outcome classes are compared; IsValidBytes
+    #      returns a bool: compared exactly.  cur = 1 selects the variant faithful to today's code where C12 has an open
+    #      finding (non-canonical ed25519 encodings, 64-byte ed25519-blake2b keys); k: 0 secp256k1/coincurve, 2 nist256p1,
+    #      3..6 ed25519 / blake2b / kholaw / monero.
+    c12 = _props("C12")
+    assert Secp256k1PrivateKey is c12.W[0][0] and Nist256p1PrivateKey is c12.W[2][0]
+    for cn, k in (("Secp256k1", 0), ("Nist256p1", 2)):
+        MM[cn + "PrivateKey.FromBytes"] = M((lambda k_: lambda m, x: m.call("ecc.w_priv_from_bytes", k_, x))(k), shape="class")
+        MM[cn + "PrivateKey.IsValidBytes"] = M((lambda k_: lambda m, x: m.call("ecc.w_priv_is_valid", k_, x))(k))
+        MM[cn + "PublicKey.FromBytes"] = M((lambda k_: lambda m, x: m.call("ecc.w_pub_from_bytes", k_, x))(k), shape="class")
+        MM[cn + "PublicKey.IsValidBytes"] = M((lambda k_: lambda m, x: m.call("ecc.w_pub_is_valid", k_, x))(k))
+        MM[cn + "Point.FromBytes"] = M((lambda k_: lambda m, x: m.call("ecc.w_point_from_bytes", 0, k_, x))(k), shape="class")
+    for cn, k in (("Ed25519", 3), ("Ed25519Blake2b", 4), ("Ed25519Kholaw", 5), ("Ed25519Monero", 6)):
+        assert getattr(bip_utils, cn + "PrivateKey") is c12.ED[k][0]
+        MM[cn + "PrivateKey.FromBytes"] = M((lambda k_: lambda m, x: m.call("ecc.e_priv_from_bytes", 1, k_, x))(k), shape="class")
+        MM[cn + "PrivateKey.IsValidBytes"] = M((lambda k_: lambda m, x: m.call("ecc.e_priv_is_valid", 1, k_, x))(k))
+        MM[cn + "PublicKey.FromBytes"] = M((lambda k_: lambda m, x: m.call("ecc.e_pub_from_bytes", 1, k_, x))(k), shape="class")
+        MM[cn + "PublicKey.IsValidBytes"] = M((lambda k_: lambda m, x: m.call("ecc.e_pub_is_valid", 1, k_, x))(k))
+        MM[cn + "Point.FromBytes"] = M(lambda m, x: m.call("ecc.e_point_from_bytes", 1, x), shape="class")
+    MM["Sr25519PrivateKey.FromBytes"] = M(lambda m, x: m.call("ecc.sr_priv_from_bytes", x), shape="class")
+    MM["Sr25519PublicKey.FromBytes"] = M(lambda m, x: m.call("ecc.sr_pub_from_bytes", x), shape="class")
+    # ---- master key from a seed (C03: group deriv): FromSeed(seed) observed through an empty relative path
+    c03 = _props("C03")
+    for cid, cls in enumerate(c03.CLS):
+        MM[cls.__name__ + ".FromSeed"] = via("C03", "seed_path", "deriv", (lambda c_: lambda x: [c_, x, 0, []])(cid))
+    # ---- address decoders (C09: group addr), parameters from the coin tables (meta of the census entry)
+    addr = {
+        "P2PKHAddrDecoder": lambda p: (lambda m, x: m.call("addr.p2pkh_decode", 0, p["net_ver"], x)),
+        "P2SHAddrDecoder": lambda p: (lambda m, x: m.call("addr.p2sh_decode", p["net_ver"], x)),
+        "XrpAddrDecoder": lambda p: (lambda m, x: m.call("addr.xrp_decode", x)),
+        "XtzAddrDecoder": lambda p: (lambda m, x: m.call("addr.xtz_decode", p["prefix"].value, x)),
+        "NeoLegacyAddrDecoder": lambda p: (lambda m, x: m.call("addr.neo_decode", p["ver"], x)),
+        "NeoN3AddrDecoder": lambda p: (lambda m, x: m.call("addr.neo_decode", p["ver"], x)),
+        "EosAddrDecoder": lambda p: (lambda m, x: m.call("addr.eos_decode", x)),
+        "ErgoP2PKHAddrDecoder": lambda p: (lambda m, x: m.call("addr.ergo_decode", int(p["net_type"].value), x)),
+        "SolAddrDecoder": lambda p: (lambda m, x: m.call("addr.sol_decode", x)),
+        "EthAddrDecoder": lambda p: (lambda m, x: m.call("addr.eth_decode", 0, x)),
+        "TrxAddrDecoder": lambda p: (lambda m, x: m.call("addr.trx_decode", x)),
+        "IcxAddrDecoder": lambda p: (lambda m, x: m.call("addr.icx_decode", x)),
+        "NearAddrDecoder": lambda p: (lambda m, x: m.call("addr.near_decode", x)),
+        "SuiAddrDecoder": lambda p: (lambda m, x: m.call("addr.sui_decode", x)),
+        "AptosAddrDecoder": lambda p: (lambda m, x: m.call("addr.aptos_decode", x)),
+        # Base32 / SS58 pipelines of Model/AddrText.v over the merged codec models (group addrtext); curve tag of the
+        # key-validity oracle: 2 ed25519, 3 ed25519-blake2b, 4 sr25519
+        "AlgoAddrDecoder": lambda p: (lambda m, x: m.call("addrtext.algo_decode", x)),
+        "XlmAddrDecoder": lambda p: (lambda m, x: m.call("addrtext.xlm_decode", int(p["addr_type"].value), x)),
+        "FilSecp256k1AddrDecoder": lambda p: (lambda m, x: m.call("addrtext.fil_decode", x)),
+        "NanoAddrDecoder": lambda p: (lambda m, x: m.call("addrtext.nano_decode", x)),
+        "NimAddrDecoder": lambda p: (lambda m, x: m.call("addrtext.nim_decode", x)),
+        "SubstrateEd25519AddrDecoder": lambda p: (lambda m, x: m.call("addrtext.substrate_decode", 2, int(p["ss58_format"]), x)),
+    }
+    for name, e in ENTRIES.items():
+        if e["meta"] and e["meta"][0] in addr:
+            dname, params = e["meta"]
+            if dname == "P2PKHAddrDecoder" and set(params) != {"net_ver"}:
+                continue
+            MM[name] = M(addr[dname](params))
+    MM["SubstrateSr25519AddrDecoder.DecodeAddr"] = M(lambda m, x: m.call("addrtext.substrate_decode", 4, 0, x))
+    MM["SplToken.GetAssociatedTokenAddress"] = M(
+        lambda m, x: m.call("serbip.spl_get_ata", x, "EPjFWdd5AufqSSqeM2qN1xzybapC8G4wEGGkZwyTDt1v"))
+    for n in MM:
+        assert n in ENTRIES, "MODEL_MAP names an entry point that is not in the census: " + n
+
+
+from modeldrv import Z  # noqa: E402
+build_model_map()
+
+
+def _model_func(name):
+    mm = MODEL_MAP[name]
+    call = ENTRIES[name]["call"]
+    if mm.shape == "class":
+        def model(m, a):
+            r = mm.model(m, a[0])
+            return r if r[0] == "err" else ("ok", 1)
+
+        def impl(a):
+            (mm.impl or call)(a[0])
+            return 1
+    else:
+        def model(m, a):
+            return mm.model(m, a[0])
+
+        def impl(a):
+            return (mm.impl or call)(a[0])
+    return Func(model=model, impl=impl)
+
+
+# "<entry>" : the fuzz obligation (exception family + wall clock) on EVERY generated input;
+# "model:<entry>" : the correspondence of the same entry point with its model on the junk list and a sample of the
+# mutation stream (the model driver is ~100x slower than the implementation).
 FUNCS = {}
-for _n, _e in ENTRIES.items():
-    _mdl = MODEL_MAP.get(_n)
-    FUNCS[_n] = Func(model=_mdl, impl=(lambda n_: lambda a: ENTRIES[n_]["call"](a[0]))(_n) if _mdl else None,
-                     direct=_direct(_n))
+for _n in ENTRIES:
+    FUNCS[_n] = Func(direct=_direct(_n))
+    if _n in MODEL_MAP:
+        FUNCS["model:" + _n] = _model_func(_n)
 
 
 def generate(ctx):
@@ -505,8 +708,11 @@ def generate(ctx):
     only = os.environ.get("VERIF_ONLY")
     names = sorted(n for n in ENTRIES if not only or any(o in n for o in only.split(",")))
     per = ctx.n(10, 600)
+    mcap = ctx.n(70, 1500)          # model comparisons per entry point beyond the junk list and the seeds
+    n_model = 0
     for name in names:
         e = ENTRIES[name]
+        deep = []                   # mutations below the checksum / word layer: they reach the inner error sites
         if e["kind"] == "str":
             inputs = list(JUNK_STR)
             for s in e["seeds"]:
@@ -515,25 +721,51 @@ def generate(ctx):
                     inputs += mutate_str(s, rng, 4)[:40]
                 else:
                     inputs += mutate_str(s, rng, per)
-                    inputs += payload_mutations(name, s, rng)
-                    inputs += bech32_family_mutations(s, rng)
+                    d = payload_mutations(name, s, rng) + bech32_family_mutations(s, rng)
                     if "Mnemonic" in name or "SeedGenerator" in name:
-                        inputs += mutate_words(s, rng)
+                        d += mutate_words(s, rng)
+                    inputs += d
+                    deep += d
         else:
             inputs = list(JUNK_BYTES)
             for b in e["seeds"]:
                 inputs.append(b)
                 inputs += mutate_bytes(b, rng, per)
-        seen = set()
+        seen, uniq = set(), []
         for x in inputs:
-            if x in seen:
-                continue
-            seen.add(x)
+            if x not in seen:
+                seen.add(x)
+                uniq.append(x)
+        modelled = name in MODEL_MAP and ctx.m is not None
+        junk = set(JUNK_STR) | set(JUNK_BYTES)
+        fixed = junk | set(e["seeds"])
+        rest = [x for x in uniq if x not in fixed]
+        if e["slow"]:
+            sample = set(e["seeds"]) | set(rest[:3]) | {"", "a", "z" * 11}      # scrypt per structurally valid input
+        elif len(rest) <= mcap:
+            sample = fixed | set(rest)
+        else:                        # half of the sample from the deep mutations, half from the text-level ones
+            dset = set(deep)
+            dl = [x for x in rest if x in dset]
+            tl = [x for x in rest if x not in dset]
+            nd = min(len(dl), max(mcap // 2, mcap - len(tl)))
+            sample = fixed | set(rng.sample(dl, nd)) | set(rng.sample(tl, min(len(tl), mcap - nd)))
+        for x in uniq:
             if not ctx.time_left():
                 break
-            ctx.run(name, [x], "junk" if (x in JUNK_STR or x in JUNK_BYTES) else "mut", trivial=(len(x) == 0))
+            tag = "junk" if x in junk else "mut"
+            ctx.run(name, [x], tag, trivial=(len(x) == 0))
+            if modelled and x in sample:
+                ctx.run("model:" + name, [x], tag, trivial=True)
+                n_model += 1
     ctx.dist["entry_points"] = len(names)
     ctx.dist["modelled"] = sorted(MODEL_MAP)
+    ctx.dist["unmodelled"] = sorted(n for n in ENTRIES if n not in MODEL_MAP)
+    ctx.dist["model_comparisons"] = n_model
+    ctx.note_exhaustive("entry points compared with their model (%d of %d): %s" % (
+        len(MODEL_MAP), len(ENTRIES), ", ".join(sorted(MODEL_MAP))))
+    ctx.note_exhaustive("entry points covered by fuzzing only (%d): %s" % (
+        len(ENTRIES) - len(MODEL_MAP), ", ".join(sorted(n for n in ENTRIES if n not in MODEL_MAP))))
 
 
 # --------------------------------------------------------------------------- known findings (predicates)
